@@ -545,6 +545,23 @@ pub fn emit(prop: &str, g: &mut Gen, out: &mut Vec<String>) {
                     }
                     "C04" => {
                         push(out, format!("year {ct} {y}"));
+                        // ordinals of dates that come from the other producers (stepping, boundary
+                        // accessors, re-construction, parsing, conversion), not only from at_jdn
+                        let n = 1 + g.rng.below(3);
+                        let mut ops = Vec::new();
+                        for _ in 0..n {
+                            ops.push(match g.rng.below(14) {
+                                0..=3 => "p".to_string(),
+                                4..=6 => "s".into(),
+                                7 => "y".into(),
+                                8 => "o".into(),
+                                9 => "t".into(),
+                                10 => "n".into(),
+                                11 => (*g.rng.pick(&["l", "g", "u", "T"])).into(),
+                                _ => format!("c{}", g.cal().0),
+                            });
+                        }
+                        push(out, format!("hist {ct} {j} {}", ops.join(" ")));
                         // the last day of the year and the first of the next
                         if let Some((a, b)) = oc.year_span(y) {
                             if (I32_MIN..=I32_MAX).contains(&a) && (I32_MIN..=I32_MAX).contains(&b) {
